@@ -233,6 +233,33 @@ func (c *c06Case) replay(cuts []int, usePI bool) map[string]any {
 	return m
 }
 
+// safeRunCase turns a panic that escapes the per-call recover (e.g. from the
+// harness' own buffer release after the code under test corrupted a buffer)
+// into a violation of the case instead of killing the worker process.
+func (w *c06Worker) safeRunCase(g, j int, c *c06Case) {
+	defer func() {
+		if p := recover(); p != nil {
+			w.fails = append(w.fails, c06Fail{ord: [3]int{g, j, -1}, key: c.key(0, "panic-in-worker"),
+				desc:   fmt.Sprintf("%s; stream=%s, limit %s, config %s, server=%v: panic while driving the receive path: %v", c.fam, c06Hex(c.stream), c06LimStr(c.lim), c.cfg.name, c.srv, p),
+				replay: c.replay(nil, false)})
+			w.pool = c06Pool{} // its free lists may hold a buffer twice after the unwound call
+			w.rd.last = nil
+		}
+	}()
+	w.runCase(g, j, c)
+}
+
+// c06Guard runs f (sending-half set-up / direct checks on the main goroutine)
+// and reports a panic in the code under test as a violation.
+func c06Guard(r *vk.Run, what string, f func()) {
+	defer func() {
+		if p := recover(); p != nil {
+			r.Violation(c06P, "panic "+what, fmt.Sprintf("panic in %s: %v", what, p), nil)
+		}
+	}()
+	f()
+}
+
 // runCase evaluates one case under its whole chunking family.
 func (w *c06Worker) runCase(g, j int, c *c06Case) {
 	if c.exp == nil {
@@ -372,7 +399,7 @@ func (x *c06Runner) runGroup(cases []*c06Case) {
 				if j >= len(cases) {
 					return
 				}
-				w.runCase(g, j, cases[j])
+				w.safeRunCase(g, j, cases[j])
 			}
 		}(w)
 	}
@@ -1013,8 +1040,9 @@ func TestVerif_C06_Framing(t *testing.T) {
 	}
 
 	// sending half, direct checks
-	n := c06CheckMsgHeader(r)
-	n += c06CheckDoWithMaxSize(r)
+	var n int64
+	c06Guard(r, "msgHeader checks", func() { n += c06CheckMsgHeader(r) })
+	c06Guard(r, "doWithMaxSize checks", func() { n += c06CheckDoWithMaxSize(r) })
 	r.Eval(P, n)
 	r.NontrivialN(P, n)
 	r.Set(P, "direct_msgHeader_and_doWithMaxSize_checks", n)
@@ -1070,7 +1098,10 @@ func TestVerif_C06_Framing(t *testing.T) {
 				if !mine() || x.stop {
 					continue
 				}
-				cases := c06GenB(r, lim, byName[cn], srv, r.Pick(2, 3), r.Thorough())
+				var cases []*c06Case
+				c06Guard(r, fmt.Sprintf("compress() while building family B lim=%s cfg=%s", c06LimStr(lim), cn), func() {
+					cases = c06GenB(r, lim, byName[cn], srv, r.Pick(2, 3), r.Thorough())
+				})
 				casesB += int64(len(cases))
 				x.runGroup(cases)
 			}
@@ -1086,7 +1117,10 @@ func TestVerif_C06_Framing(t *testing.T) {
 			if !mine() || x.stop {
 				continue
 			}
-			cases := c06GenC(r, sc, parts, r.Thorough())
+			var cases []*c06Case
+			c06Guard(r, fmt.Sprintf("prepareMsg while building family C send=%s parts=%d", sc.name, parts), func() {
+				cases = c06GenC(r, sc, parts, r.Thorough())
+			})
 			casesC += int64(len(cases))
 			x.runGroup(cases)
 		}
